@@ -693,12 +693,14 @@ class Program:
                 if len(args) == 1:
                     return self.iter_elem(args[0], env, f)
                 return union(*[self.type_of(a, env, f) for a in args]) if args else UNKNOWN
-            if name == 'getattr' and len(args) >= 2 and isinstance(args[1], ast.Constant):
-                t = self.type_of(ast.Attribute(value=args[0], attr=args[1].value, ctx=ast.Load()),
-                                 env, f)
-                if len(args) > 2:
-                    t = union(t, self.type_of(args[2], env, f))
-                return t
+            if name == 'getattr' and len(args) >= 2:
+                names = self.const_strings(args[1], f)
+                if names:
+                    t = union(*[self.type_of(ast.Attribute(value=args[0], attr=nm, ctx=ast.Load()), env, f)
+                                for nm in names])
+                    if len(args) > 2:
+                        t = union(t, self.type_of(args[2], env, f))
+                    return t
             if name == 'super':
                 if f is not None and f.cls is not None:
                     return ('super', f.cls.name)
@@ -801,6 +803,20 @@ class Program:
                             self._add_attr(c, fn.value.attr, (kind, et))
                 for g, bound_first in self.callees(n, env, f):
                     self._flow_args(n, g, env, f)
+                # map(f, X) / filter(f, X): f is called with the elements of X
+                if isinstance(fn, ast.Name) and fn.id in ('map', 'filter') and len(n.args) >= 2:
+                    ft = self.type_of(n.args[0], env, f)
+                    for a_ in atoms(ft):
+                        gs_ = []
+                        if a_[0] == 'bound':
+                            gs_ = [self.m.funcs[q_] for q_ in a_[1] if q_ in self.m.funcs]
+                        elif a_[0] == 'func' and a_[1] in self.m.funcs:
+                            gs_ = [self.m.funcs[a_[1]]]
+                        for g_ in gs_:
+                            ps_ = g_.bound_params() if a_[0] == 'bound' else g_.params
+                            for i_, x_ in enumerate(n.args[1:]):
+                                if i_ < len(ps_):
+                                    self._add_param(g_, ps_[i_], self.iter_elem(x_, env, f))
 
     def _add_attr(self, c, attr, t):
         if t == UNKNOWN or t == BOTTOM:
@@ -830,6 +846,36 @@ class Program:
         self.param_t[(g.qual, p)] = t if old is None else union(old, t)
 
     # ------------------------------------------------------------ call resolution
+    def const_strings(self, e, f):
+        """the string constants an expression can stand for: a literal, or a loop variable ranging over
+        a literal tuple / a module-level constant tuple of strings; None when not decidable"""
+        if isinstance(e, ast.Constant) and isinstance(e.value, str):
+            return [e.value]
+        if not isinstance(e, ast.Name) or f is None:
+            return None
+        from .symx import module_constants
+
+        def strings_of(v):
+            if isinstance(v, ast.Name):
+                v = module_constants(f.module).get(v.id)
+            if isinstance(v, (ast.Tuple, ast.List)) and v.elts and all(
+                    isinstance(x, ast.Constant) and isinstance(x.value, str) for x in v.elts):
+                return [x.value for x in v.elts]
+            return None
+        out = None
+        for n in ast.walk(f.node):
+            if isinstance(n, (ast.For, ast.comprehension)) and isinstance(n.target, ast.Name) and n.target.id == e.id:
+                ss = strings_of(n.iter)
+                if ss is None:
+                    return None
+                out = (out or []) + ss
+            elif isinstance(n, ast.Name) and n.id == e.id and isinstance(n.ctx, ast.Store) and not (
+                    isinstance(parent(n), (ast.For, ast.comprehension)) and parent(n).target is n):
+                return None         # assigned elsewhere too
+        if e.id in f.all_params:
+            return None
+        return out
+
     def callees(self, call, env, f):
         """[(Func, is_bound)] that an ast.Call may invoke (package functions only)."""
         fn = call.func
@@ -1069,14 +1115,15 @@ class Program:
         # dynamic attribute access
         if isinstance(fn, ast.Name) and fn.id in ('getattr', 'setattr', 'delattr', 'hasattr') \
            and len(n.args) >= 2:
-            if isinstance(n.args[1], ast.Constant) and isinstance(n.args[1].value, str):
-                if fn.id in ('getattr', 'hasattr'):
-                    fake = ast.Attribute(value=n.args[0], attr=n.args[1].value, ctx=ast.Load())
-                    fake._parent = parent(n)
-                    self._scan_attr(f, fake, env)
-                else:
-                    self._effect(f, n.args[0], n.args[1].value,
-                                 'write' if fn.id == 'setattr' else 'del', n, env)
+            names = self.const_strings(n.args[1], f)
+            if names:
+                for nm in names:
+                    if fn.id in ('getattr', 'hasattr'):
+                        fake = ast.Attribute(value=n.args[0], attr=nm, ctx=ast.Load())
+                        fake._parent = parent(n)
+                        self._scan_attr(f, fake, env)
+                    else:
+                        self._effect(f, n.args[0], nm, 'write' if fn.id == 'setattr' else 'del', n, env)
             else:
                 t = self.type_of(n.args[0], env, f)
                 for c in classes_of(t):
